@@ -8,6 +8,7 @@ import (
 	"regexp"
 	"sort"
 	"strings"
+	"sync"
 
 	"golang.org/x/tools/go/packages"
 	"golang.org/x/tools/go/ssa"
@@ -30,6 +31,8 @@ type Program struct {
 	// files that came from the lemma overlay (abs path in repo -> source path)
 	OverlayFiles map[string]string
 	LoadErrors   []string
+	purity       *purityInfo
+	purityMu     sync.Mutex
 }
 
 // loadProgram loads the packages named by pkgRel (relative import paths under
